@@ -27,11 +27,11 @@ Definition udp_broadcast d := ud_with_eth d (eth_set_broadcast (ud_eth d)).
 Definition udp_srcip d (a : N) := ud_with_ip d (ip_calc_csum (ip_set_saddr (ud_ip d) a)).
 Definition udp_frag_off d (off : N) := ud_with_ip d (ip_calc_csum (ip_set_frag_off (ud_ip d) off)).
 
-(** push(bytes): append, add_tot_len(len as u16).calc_csum(), add_len(len as u16) -- both checked *)
+(** push(bytes): append, add_tot_len(len as u16).calc_csum(), add_len(len as u16) -- both wrapping *)
 Definition udp_push d (b : bytes) : outcome udp_dgram :=
   let more := wrap16 (len b) in
-  do t <- cadd two16 "ipv4.rs add_tot_len overflow" (ip_tot_len (ud_ip d)) more;
-  do l <- cadd two16 "ipv4.rs add_len overflow" (uh_len (ud_udp d)) more;
+  let t := wrap16 (ip_tot_len (ud_ip d) + more) in
+  let l := wrap16 (uh_len (ud_udp d) + more) in
   Ok {| ud_raw := ud_raw d; ud_eth := ud_eth d;
         ud_ip := ip_calc_csum (ip_set_tot_len (ud_ip d) t);
         ud_udp := {| uh_sport := uh_sport (ud_udp d); uh_dport := uh_dport (ud_udp d); uh_len := l; uh_csum := uh_csum (ud_udp d) |};
